@@ -171,6 +171,12 @@ def run(case: dict, lean: Lean) -> Outcome:
                     cur.run("recommender", query=RecQuery(user_id=int(ds.users.ids()[1]), user_items=hist), items=il, n=2)
                     after = (state(il), state(hist))
                     if after != before: failed.append(f"a component changed an item list it was given: {str(before)[:160]} -> {str(after)[:160]}"); keys.add("?itemlist")
+                    # a component of the caller's own that derives reduced / extended copies with the documented ItemList(source, ...) forms
+                    from lkv_components import DerivingComponent
+                    il2 = ItemList(il, scores=np.linspace(1.0, 2.0, len(il))); before = (state(il), state(il2))
+                    DerivingComponent()(il2)
+                    after = (state(il), state(il2)); classes.add("derived copies of a scored list")
+                    if after != before: failed.append(f"deriving copies of an item list changed the list itself: {str(before[1])[:200]} -> {str(after[1])[:200]}"); keys.add("?itemlist-derive")
             except Exception as e:
                 classes.add("op raised"); continue
             check(built, op)
